@@ -1,6 +1,7 @@
 //! Verification harness for brave/adblock-rust: bounded-exhaustive exploration of the real code
 //! against reference models (see /verif/DESIGN.md).
 pub mod alloc;
+pub mod alpha;
 pub mod core;
 pub mod net;
 pub mod oracle;
